@@ -126,10 +126,18 @@ impl<'a> SessionData<'a> {
     }
 
     pub(super) fn next_packet_id(&mut self) -> u16 {
-        let packet_id = self.packet_id.get();
-        self.packet_id =
-            NonZeroU16::new(packet_id.wrapping_add(1)).unwrap_or(NonZeroU16::new(1).unwrap());
-        packet_id
+        // After the 16-bit counter wraps it can reach an identifier that is still in flight;
+        // skip those. At most 16 identifiers are in use, so this terminates.
+        loop {
+            let packet_id = self.packet_id.get();
+            self.packet_id =
+                NonZeroU16::new(packet_id.wrapping_add(1)).unwrap_or(NonZeroU16::new(1).unwrap());
+            if !self.outbound.has_retained(packet_id)
+                && !self.outbound.has_pending_release(packet_id)
+            {
+                return packet_id;
+            }
+        }
     }
 }
 
